@@ -27,6 +27,11 @@ def src_for(rot):
     order = STATS[rot % len(STATS):] + STATS[:rot % len(STATS)]
     if rot % 20 >= 10:
         order.reverse()
+    if rot % 3 == 2:
+        # a lazily produced sequence shown in batches of one, and another variable (z, a copy of x) summarised first: every
+        # summary is computed over the whole sequence, whatever was displayed or summarised before
+        return ('<dtml-in seq%s size=1 orphan=0><dtml-if sequence-end>cz=<dtml-var count-z>/<dtml-var total-z missing=->|' +
+                '|'.join('%s=<dtml-var %s-x>' % (s, s) for s in order) + '</dtml-if></dtml-in>')
     return ('<dtml-in seq%s><dtml-if sequence-end>' + '|'.join('%s=<dtml-var %s-x>' % (s, s) for s in order) +
             '</dtml-if></dtml-in>')
 REAL = [('int', 1, 0), ('float', 1.0, 0.0), ('quarter', 0.25, 0.0), ('fine', 2.0 ** -15, 0.5),
@@ -70,9 +75,11 @@ _t = {}
 
 def render(seq, mapping, rot=0):
     from DocumentTemplate.DT_HTML import HTML
-    key = (mapping, rot % 20)
+    key = (mapping, rot % 60)
     if key not in _t:
         _t[key] = HTML(src_for(rot) % (' mapping' if mapping else ''))
+    if rot % 3 == 2:
+        seq = (e for e in seq)          # a generator: nothing can be read twice behind the tag's back
     return _t[key](seq=seq)
 
 
@@ -106,10 +113,10 @@ def observe(item):
                 else:
                     v = NAMES[x['v']]
                 if mapping:
-                    seq.append({'x': v})
+                    seq.append({'x': v, 'z': v})
                 else:
                     o = O()
-                    o.x = v
+                    o.x = o.z = v
                     seq.append(o)
             rec = {'ok': 1, 'real': rname, 'mapping': mapping}
             try:
